@@ -1179,6 +1179,8 @@ PROPS = {
         "rule": "seeded directory trees (depth <= 2, file names with every relevant extension shape: .lp .spec .ug .po .LP .lp.bak '.', leading dots, no extension, names that sort differently by byte order) "
                 "created under /verif/work, given to Files::sort in random argument order; all five buckets and all six accessors vs the Lean model",
         "level_text": "Full for the model: bucket_by_extension, spec_anywhere / ug_anywhere / po_anywhere (invariance under every permutation of the visited files), lp_roles, swap_programs proved; "
+                      "the walk that produces the visited files is a total function of the model (walkPaths) with walk_file, walk_dir (entries by name, depth first), walk_arguments_in_order "
+                      "(arguments in the order given, no sorting across them), walk_link / links_contribute_nothing / links_in_a_directory_contribute_nothing (a symbolic link plays no role anywhere); "
                       "Path::extension, WalkDir order and the filesystem are tied by correspondence on real directory trees.",
         "level_note": PROOF_NOTE + " walkdir and the filesystem are modelled (sorted depth-first walk), not verified.",
         "technique": "Lean 4 proof (list filtering/permutation lemmas) + differential correspondence on real directory trees",
